@@ -28,7 +28,7 @@ def plan(tier, seed):
 	tasks += [('t_bytes', dict(lo=lo, hi=lo + 32)) for lo in range(0, 256, 32)]
 	b3 = [seed % 256] if tier == 'quick' else sorted({seed % 256, 65, 97, 78, 0, 255, 84, 116})
 	tasks += [('t_bytes3', dict(first=b)) for b in b3]
-	tasks += [('t_boundary', dict())]
+	tasks += [('t_boundary', dict()), ('t_long', dict(seed=seed))]
 	return tasks
 
 
@@ -194,16 +194,53 @@ def t_boundary():
 	return sh
 
 
+def t_long(seed):
+	"""revcomp on long inputs (lengths around 16, 64, 256, 1024, 4096, 65536): every byte value and both cases occur at every residue class -
+	a fast path that takes over above some length, or processes blocks, shows here."""
+	from gambit._cython import kmers as ck
+	import gambit.seq as gs
+	import gambit.kmers as gk
+	sh = Shard()
+	lengths = [15, 16, 17, 63, 64, 65, 255, 256, 257, 1023, 1024, 1025, 4095, 4096, 4097, 65535, 65536, 65537]
+	patterns = {
+		'all-bytes': lambda n: bytes((i * 7 + seed) % 256 for i in range(n)),
+		'mixed-case-acgt': lambda n: bytes(b'ACGTacgtNn'[(i * 3 + i // 7) % 10] for i in range(n)),
+		'lower': lambda n: bytes(b'acgt'[(i + i // 5) % 4] for i in range(n)),
+		'upper': lambda n: bytes(b'ACGT'[(i + i // 3) % 4] for i in range(n)),
+		'iupac': lambda n: bytes(b'ACGTRYKMSWBDHVNUacgtrykmswbdhvnu'[(i * 5) % 32] for i in range(n)),
+	}
+	for n in lengths:
+		for pname, mk in patterns.items():
+			seq = mk(n)
+			exp = R.ref_revcomp(seq)
+			for name, fn in (('native', ck.revcomp), ('gambit.seq.revcomp', gs.revcomp), ('gambit.kmers.revcomp', gk.revcomp)):
+				for variant in (seq, bytearray(seq)):
+					got = fn(variant)
+					sh.evals += 1
+					if bytes(got) != exp:
+						bad = next(i for i in range(n) if bytes(got)[i:i + 1] != exp[i:i + 1]) if len(got) == n else -1
+						sh.violation('revcomp-long', dict(length=n, pattern=pname, name=name, first_bad_position=bad), exp[max(0, bad - 2):bad + 3], bytes(got)[max(0, bad - 2):bad + 3])
+						break
+			sh.nontrivial += 1
+			sh.count('long_inputs')
+	sh.sample(dict(family='long', lengths=lengths, patterns=list(patterns)))
+	return sh
+
+
 def finalize(agg, tier):
 	agg.require('accepted', 1000)
 	agg.require('rejected', 1000)
 	agg.require('mixed_case', 100)
 	agg.require('k33', 10)
+	agg.require('long_inputs', 50)
 
 
 def replay(case, kind=None):
 	sh = Shard()
 	from gambit._cython import kmers as ck
+	if 'pattern' in case:
+		import os
+		return [v for v in t_long(int(os.environ.get('VERIF_SEED') or 0)).violations if v['case'] == case]
 	if 'kmer' in case or 'seq' in case:
 		_check_kmer(sh, case.get('kmer', case.get('seq')), None)
 	elif 'index' in case:
